@@ -3,6 +3,7 @@ package main
 import (
 	"encoding/xml"
 	"fmt"
+	"strings"
 	"time"
 
 	"mellium.im/xmpp"
@@ -132,7 +133,14 @@ func formTD() *typeDesc {
 			if g.Title != f.Title && g.Title != o.Title {
 				return "Title"
 			}
-			if g.Instr != f.Instr && g.Instr != o.Instr && g.Instr != o.Instr+"\n"+f.Instr {
+			// the instruction lines of the document follow the ones the form had; an empty
+			// <instructions/> is a line too once there is a previous one (a fresh destination
+			// cannot show it), so the lines are compared up to empty ones
+			lines := func(s string) string {
+				return strings.Join(strings.FieldsFunc(s, func(r rune) bool { return r == '\n' }), "\n")
+			}
+			if g.Instr != f.Instr && g.Instr != o.Instr &&
+				!(strings.HasPrefix(g.Instr, o.Instr+"\n") && lines(g.Instr[len(o.Instr)+1:]) == lines(f.Instr)) {
 				return "Instr"
 			}
 			if len(g.Fields) != len(o.Fields)+len(f.Fields) || fmt.Sprint(g.Fields) != fmt.Sprint(append(append([]form.VerifField{}, o.Fields...), f.Fields...)) {
